@@ -267,6 +267,8 @@ struct WorldT : IWorld
     r.set("ne", ne);
     r.set("unordered", !lt && !gt);
     r.set("order", (lt == blt && gt == bgt) ? "as-base" : "differs-from-base");
+    r.set("antisym", !(lt && gt));
+    r.set("consistent", eq != ne);
     return r;
   }
   template <class HX>
@@ -398,10 +400,20 @@ struct WorldT : IWorld
     } else if (a == "ClearMember") {
       if (!okObj(ob) || !alive((int)ob) || !hasMember((int)ob) || !externallyHeld((int)ob)) return skipped();
       objs[ob].leaf->next = nullptr;
-    } else if (a == "CopyCtorFromMember") {
+    } else if (a == "CopyCtorFromMember" || a == "MoveCtorFromMember") {
       if (!okSlot(s) || !okSlot(t) || s == t || slots[s].constructed || slots[s].type != 'B' || !memberOwner((int)t)) return skipped();
-      new (slots[s].mem) HB(memberThrough((int)t, memberOwner((int)t)));
+      if (a == "CopyCtorFromMember") new (slots[s].mem) HB(memberThrough((int)t, memberOwner((int)t)));
+      else new (slots[s].mem) HB(std::move(memberThrough((int)t, memberOwner((int)t))));
       slots[s].constructed = true;
+    } else if (a == "UnlinkNext" || a == "UnlinkNextMove") {
+      // x.next = x.next->next: destination and source are member handles, the source lives in the object the destination designates
+      if (!okObj(ob) || !alive((int)ob) || !hasMember((int)ob) || !externallyHeld((int)ob)) return skipped();
+      Leaf *L = objs[ob].leaf;
+      const long long z = identifyNode(L->next.ptr);
+      if (z < 1 || z >= (long long)objs.size() || !hasMember((int)z)) return skipped();
+      Ref<Node> &src = dynamic_cast<Leaf &>(*L->next).next;
+      if (a == "UnlinkNext") L->next = src;
+      else L->next = std::move(src);
     } else if (a == "CopyAssignFromMember" || a == "MoveAssignFromMember") {
       if (!okSlot(s) || !okSlot(t) || !slots[s].constructed || slots[s].type != 'B' || !memberOwner((int)t)) return skipped();
       HB &dst = B((int)s);
@@ -420,7 +432,6 @@ struct WorldT : IWorld
       else ret = arrowOf(const_cast<const HD &>(D((int)s)));
     } else if (a == "Compare") {
       if (!okSlot(s) || !okSlot(t) || !slots[s].constructed || !slots[t].constructed) return skipped();
-      if (rawOf((int)s) == nullptr && rawOf((int)t) == nullptr) return skipped();
       // handles of the same or of different static types: whatever the expression compiles to
       if (slots[s].type == 'C') ret = compareWith(const_cast<const HC &>(C((int)s)), (int)t);
       else if (slots[s].type == 'B') ret = compareWith(const_cast<const HB &>(B((int)s)), (int)t);
@@ -480,13 +491,84 @@ struct WorldT : IWorld
   }
 };
 
+// Numeric boundaries of the counter (spec/memory/RefCountBig.tla): one object, macro actions that make
+// |target - current| individual refInc() / refDec() calls, or copy / destroy that many handles in a growing array.
+// Numbers travel as {q, r} = q * 65536 + r.
+struct BigWorld : IWorld
+{
+  typedef NodeT<0> Node;
+  Node *obj;
+  bool creatorHeld;
+  unsigned long long expl;
+  std::vector<IntrusivePtr<Node>> handles;
+  BigWorld() : obj(nullptr), creatorHeld(false), expl(0) { g_dtors.clear(); g_quarantine = false; }
+  bool alive() const
+  {
+    if (!obj) return false;
+    for (const DtorEvent &e : g_dtors)
+      if (e.part == 'B') return false;
+    return true;
+  }
+  Json step(const Json &act) override
+  {
+    const std::string &a = act["a"].str();
+    const Json &arg = act["arg"];
+    const unsigned long long target = arg.has("q") ? (unsigned long long)arg["q"].num() * 65536ULL + (unsigned long long)arg["r"].num() : 0;
+    Json o = Json::object();
+    if (a == "New") {
+      if (alive()) { o.set("skipped", true); return o; }
+      g_dtors.clear();
+      handles.clear();
+      obj = new Node(1, 1);
+      creatorHeld = true;
+      expl = 0;
+    } else if (a == "CreatorDrop") {
+      if (!alive() || !creatorHeld) { o.set("skipped", true); return o; }
+      creatorHeld = false;
+      obj->refDec();
+    } else if (a == "ExplicitTo") {
+      if (!alive()) { o.set("skipped", true); return o; }
+      const Node *c = obj;
+      while (expl < target) { c->refInc(); ++expl; }
+      while (expl > target) { --expl; c->refDec(); }  // the last of these calls may be the last release
+    } else if (a == "HandlesTo") {
+      if (!alive()) { o.set("skipped", true); return o; }
+      while (handles.size() < target) {
+        if (handles.empty()) handles.push_back(IntrusivePtr<Node>(obj));  // raw-pointer constructor, then moved / copied into the array
+        else handles.push_back(handles.back());                           // copies; growth of the array copies and destroys all of them
+      }
+      while (handles.size() > target) handles.pop_back();
+      if (target == 0) std::vector<IntrusivePtr<Node>>().swap(handles);
+    } else {
+      o.set("unknown", a);
+    }
+    bool died = false;
+    for (const DtorEvent &e : g_dtors)
+      if (e.part == 'B') died = true;
+    Json use = Json::array();
+    if (obj && !died) {
+      const unsigned long long u = (unsigned long long)obj->useCount();
+      use.push((long long)(u / 65536ULL));
+      use.push((long long)(u % 65536ULL));
+    } else {
+      use.push(-1);
+      use.push(-1);
+    }
+    o.set("use", use);
+    o.set("died", died && a != "New");
+    if (died) obj = nullptr, g_dtors.clear();
+    return o;
+  }
+};
+
 struct World
 {
   IWorld *w;
   World(const Json &hist)
   {
     const std::string l = hist.has("layout") ? hist["layout"].str() : "single";
-    if (l == "multi") w = new WorldT<1>(hist);
+    if (hist.has("big") && hist["big"].boolean()) w = new BigWorld();
+    else if (l == "multi") w = new WorldT<1>(hist);
     else if (l == "virtual") w = new WorldT<2>(hist);
     else w = new WorldT<0>(hist);
   }
